@@ -476,7 +476,12 @@ def chunk_offsets(path, nchunks):
 
 
 CFG = "mc/SerDes.cfg"
-CFG_LISTS = "mc/SerDesLists.cfg"
+# (cfg, name, MaxLen quick, MaxLen thorough, -coverage): run concurrently, replayed in this order
+CONFIGS = [
+    (CFG, "programs, whole alphabet (exhaustive over abstract transitions)", 4, 5, True),
+    ("mc/SerDesLists.cfg", "programs, lists of typed subcontexts (exhaustive over abstract transitions)", 8, 11, False),
+    ("mc/SerDesFaults.cfg", "programs, every fault kind in nested / typed contexts (exhaustive over abstract transitions)", 6, 7, False),
+]
 # single-worker TLC (VIEW + length-bounded hist needs strict BFS); few GC threads because the box is shared, but the
 # optimising JIT stays on (C1-only made these 20-100 s runs 2-3 times slower)
 # -Dtlc2.value.Values.width: TLC pretty-prints every dumped value to 80 columns, which is 70 % of a dumping run; a
@@ -598,21 +603,19 @@ def selftest_G(states):
 def run(ctx):
     M()
     c20.M()
-    const = {"MaxLen": ctx.pick(4, 5), "MaxDepth": 2}
-    const_l = {"MaxLen": ctx.pick(8, 11), "MaxDepth": 2}
-    jobs = [
-        ("SerDes", c20.cfg_text(CFG, **const), {"dump": True}),
-        ("SerDes", c20.cfg_text(CFG_LISTS, **const_l), {"dump": True, "coverage": False}),  # the longer run: no per-action statistics
-    ]
-    tlc.scratch_root()  # created here, not concurrently by the two threads
-    names = ["programs, whole alphabet (exhaustive over abstract transitions)", "programs, lists of typed subcontexts (exhaustive over abstract transitions)"]
+    confs = [(c, dict(MaxLen=ctx.pick(c[2], c[3]), MaxDepth=2)) for c in CONFIGS]
+    jobs = [("SerDes", c20.cfg_text(c[0], **cst), {"dump": True, "coverage": c[4]}) for c, cst in confs]
+    tlc.scratch_root()  # created here, not concurrently by the threads
     tots = []
-    for r, name, cst in zip(tlc_jobs(jobs), names, (const, const_l)):
-        ctx.add_tlc(r, name, cst)
+    for r, (c, cst) in zip(tlc_jobs(jobs), confs):
+        ctx.add_tlc(r, c[1], dict(cst, cfg=c[0]))
         t = merge(common.pmap(work_chunk, chunk_offsets(r.dump_path, 96), chunksize=1))
         if t["n"] + t["empty"] != r.distinct or t["empty"] != 1:
             raise RuntimeError("dump yielded %d histories + %d initial states for %d distinct states" % (t["n"], t["empty"], r.distinct))
         tots.append(t)
+    const, const_l, const_f = [cst for _, cst in confs]
+    per_conf = {c[0].split("/")[-1]: t for (c, _), t in zip(confs, tots)}
+    lists_tot = per_conf["SerDesLists.cfg"]
     tot = merge(tots)
     sims = 0
     if not ctx.quick:
@@ -629,8 +632,8 @@ def run(ctx):
     lacking = [k for k in need if not tot["faults"].get(k)]
     lacking += ["given " + g for g in ("typed", "plain", "swapped") if not tot["givens"].get(g)]
     lacking += ["probe " + k for k in PROBES if k not in tot["probes"]]
-    if lacking or not tot["ops"].get("set_type") or not tot["ops"].get("leave") or not tots[1]["multi_typed"]:
-        raise RuntimeError("vacuous: no replayed history for %s (lists of >= 2 typed entries given untyped: %d)" % (lacking, tots[1]["multi_typed"]))
+    if lacking or not tot["ops"].get("set_type") or not tot["ops"].get("leave") or not lists_tot["multi_typed"]:
+        raise RuntimeError("vacuous: no replayed history for %s (lists of >= 2 typed entries given untyped: %d)" % (lacking, lists_tot["multi_typed"]))
     # probe programs for the self-test: dumped states covering faults, reuse, set_type in lists, non-list values
     probe_states = [{"hist": c20._tup(c["hist"]), "obs": c20._tup(c["obs"])} for c in (tot["probes"][k] for k in PROBES)]
     fired = selftest_G(probe_states)
@@ -639,8 +642,8 @@ def run(ctx):
         {
             "traces_validated_against_impl": alltot["n"] + tinfo["traces"],
             "replayed_histories": alltot["n"],
-            "replayed_histories_per_configuration": {"SerDes.cfg": tots[0]["n"], "SerDesLists.cfg": tots[1]["n"]},
-            "longest_program": {"SerDes.cfg": tots[0]["maxlen"], "SerDesLists.cfg": tots[1]["maxlen"]},
+            "replayed_histories_per_configuration": {k: t["n"] for k, t in per_conf.items()},
+            "longest_program": {k: t["maxlen"] for k, t in per_conf.items()},
             "simulated_walks_replayed": sims,
             "evaluations": alltot["evals"] + tinfo["events"],
             "distinct_nontrivial": alltot["nontrivial"] + tinfo["traces"],
@@ -650,6 +653,7 @@ def run(ctx):
             "bounds": {
                 "SerDes.cfg": dict(const, targets="a (plain), l (list), s (subcontext), m (list of subcontexts), c (computed), p/q (padding)", values="1-2 per primitive kind", types="dict + 2 fixeddict types"),
                 "SerDesLists.cfg": dict(const_l, alphabet="uint a, declare_list m, subcontext_enter m, subcontext_leave, set_context_type TA/TB; faults none/extra/listlong"),
+                "SerDesFaults.cfg": dict(const_f, alphabet="uint a/l, declare_list l/m, subcontext_enter s/m, subcontext_leave, set_context_type TA; every fault kind"),
                 "given_forms": "typed, plain dicts, fixeddict types exchanged",
                 "non_list_values": "7, 'x', (1,), {'k': 1} (truthy); 0, False, None, '', b'', {}, (), 0.0, bitarray() (falsy)",
             },
